@@ -91,7 +91,7 @@ var declassTable = []struct{ fn, cond, why string }{
 	{"sm2.SignHashed", "utils.ConstantTimeCmp(K[:], nBytes[:], 32) >= 0", "retry decision of the signing loop (k >= n)"},
 	{"sm2.SignHashed", "kAcc == 0", "retry decision of the signing loop (k = 0)"},
 	{"sm2.SignHashed", "rInt.Sign() == 0", "retry decision of the signing loop (r = 0)"},
-	{"sm2.SignHashed", "len(rkBytes) == 32 && utils.ConstantTimeCmp(rkBytes, nBytes, 32) == 0", "retry decision of the signing loop (r + k = n)"},
+	{"sm2.SignHashed", "utils.ConstantTimeCmp(rkBuf[:], nBytes33, 33) == 0", "retry decision of the signing loop (r + k = n)"},
 	{"sm2.SignHashed", "sInt.Sign() == 0", "retry decision of the signing loop (s = 0)"},
 }
 
@@ -126,8 +126,11 @@ var extTable = map[string]extSpec{
 	"big.Int.Mod":        {leaky: false, setter: true, results: []string{"H"}},
 	"big.Int.Bytes":      {leaky: false, results: []string{"H"}},
 	"big.Int.Sign":       {leaky: false, results: []string{"H"}},
-	"io.ReadFull":        {leaky: true, results: []string{"H", "L", "L"}}, // (buffer, n, err)
-	"fmt.Errorf":         {leaky: true, results: []string{"L"}},
+	// z.FillBytes(buf): arguments (z, buf), result the filled buffer: its length is that of buf (public),
+	// whatever z is — unlike Bytes(), whose length depends on the value
+	"big.Int.FillBytes": {leaky: false, results: []string{"H"}},
+	"io.ReadFull":       {leaky: true, results: []string{"H", "L", "L"}}, // (buffer, n, err)
+	"fmt.Errorf":        {leaky: true, results: []string{"L"}},
 }
 
 // globals whose value is not computed from a translated initialiser: Lean expression (may use
@@ -145,6 +148,7 @@ var globalLean = map[string]string{
 	"sm2.n":                                    "Val.int (Int.ofNat SMGo.Gen.SM2Params.param_N)",
 	"sm2.one":                                  "Val.int 1",
 	"sm2.nBytes":                               "natBytes 32 SMGo.Gen.SM2Params.param_N",
+	"sm2.nBytes33":                             "natBytes 33 SMGo.Gen.SM2Params.param_N", // append([]byte{0}, nBytes...)
 	"sm2.nMinus1Bytes":                         "natBytes 32 (SMGo.Gen.SM2Params.param_N - 1)",
 }
 
@@ -699,6 +703,8 @@ func (t *ctTr) analyse(f *ctFn) bool {
 					}
 				} else if ctFuncKey(o) == "io.ReadFull" {
 					mark(s.Args[1])
+				} else if ctExtKey(o) == "big.Int.FillBytes" {
+					mark(s.Args[0])
 				} else if sp, ok := extTable[ctExtKey(o)]; ok && sp.setter {
 					mark(ctCallArgs(p.info, s)[0])
 				}
@@ -1496,6 +1502,16 @@ func (x *fnTr) extCall(call *ast.CallExpr, key string, sp extSpec, pre *[]string
 		*pre = append(*pre, fmt.Sprintf(".ext [%d, %d, %d] %d %s [%s]", lv.v, n, e, id, leaky, strings.Join(args, ", ")))
 		x.wr = append(x.wr, ctWrite{root: x.resolve(lv.root), pos: call.Pos()})
 		return []string{ctVar(n), ctVar(e)}
+	case key == "big.Int.FillBytes":
+		sel := ast.Unparen(call.Fun).(*ast.SelectorExpr)
+		lv, ok := x.lvalue(call.Args[0], pre)
+		if !ok || len(lv.path) != 0 {
+			x.fail(call.Pos(), "FillBytes into something that is not a whole variable")
+		}
+		args = []string{x.expr(sel.X, pre), x.expr(call.Args[0], pre)}
+		*pre = append(*pre, fmt.Sprintf(".ext [%d] %d %s [%s]", lv.v, id, leaky, strings.Join(args, ", ")))
+		x.wr = append(x.wr, ctWrite{root: x.resolve(lv.root), pos: call.Pos()})
+		return []string{ctVar(lv.v)}
 	case strings.HasPrefix(key, "big.Int."):
 		sel := ast.Unparen(call.Fun).(*ast.SelectorExpr)
 		if sp.setter {
